@@ -340,3 +340,92 @@ Proof.
 Qed.
 
 End Concrete.
+
+(* ---------------- the `used` list and verifyArgsUsed (C08) ---------------- *)
+Section Used.
+Variable pmc : nat -> option provided.
+Variable given : nat.
+
+(* every key in the used list has a source in the set *)
+Lemma machine2_used_have_source : forall fuel stk s u s' u',
+  machine2 pmc given fuel stk s u = Some (s', u') ->
+  (forall x, In x u -> pmc x <> None) -> forall x, In x u' -> pmc x <> None.
+Proof.
+  induction fuel as [|f IH]; intros stk s u s' u' H Hu; [discriminate|].
+  cbn [machine2] in H. destruct stk as [|t stk'].
+  - inversion H; subst. exact Hu.
+  - destruct (step pmc given t stk' s) as [stk2 s2]. eapply IH; eauto.
+    intros x Hx. unfold marks in Hx. destruct (indexed s t); [auto|].
+    destruct (pmc t) eqn:E; [|auto]. apply in_app_or in Hx. destruct Hx as [Hx|[<-|[]]]; auto. congruence.
+Qed.
+
+(* a step appends at most one call, and only for the frame it popped un-indexed with a source *)
+Lemma step_calls t stk s stk2 s2 : step pmc given t stk s = (stk2, s2) ->
+  calls s2 = calls s \/
+  (exists c, calls s2 = calls s ++ [c] /\ Solve.c_out c = t /\ indexed s t = false /\ pmc t <> None).
+Proof.
+  unfold step. destruct (indexed s t) eqn:Ei; [intros H; inversion H; auto|].
+  destruct (pmc t) as [pv|] eqn:Ep; [|intros H; inversion H; auto].
+  assert (Hfin : forall k al s', finish given s t k al = Some s' ->
+            calls s' = calls s \/ exists c, calls s' = calls s ++ [c] /\ Solve.c_out c = t /\ false = false /\ Some pv <> None).
+  { intros k al s' Hf. unfold finish in Hf. destruct (arg_slots s al) as [[l|]|]; inversion Hf; subst; cbn; auto.
+    right. eexists. split; [reflexivity|]. cbn. repeat split; auto. discriminate. }
+  destruct (negb (conc pv =? t)).
+  - destruct (lookup (index s) (conc pv)); intros H; inversion H; auto.
+  - destruct (wh pv) as [i|al pid|vid|parent fid].
+    + intros H; inversion H; auto.
+    + destruct (unvisited s al).
+      * destruct (finish given s t (CProv pid) al) as [s'|] eqn:Ef; intros H; inversion H; subst; auto.
+        destruct (Hfin _ _ _ Ef) as [A|(c & A & B & _ & D)]; auto. right. exists c. auto.
+      * intros H; inversion H; auto.
+    + intros H; inversion H; subst. right. eexists. split; [reflexivity|]. cbn. repeat split; auto. discriminate.
+    + destruct (lookup (index s) parent).
+      * destruct (finish given s t (CField fid) [parent]) as [s'|] eqn:Ef; intros H; inversion H; subst; auto.
+        destruct (Hfin _ _ _ Ef) as [A|(c & A & B & _ & D)]; auto. right. exists c. auto.
+      * intros H; inversion H; auto.
+Qed.
+
+(* every planned call's output type is in the used list: what is called is never reported unused *)
+Theorem machine2_calls_used : forall fuel stk s u s' u',
+  machine2 pmc given fuel stk s u = Some (s', u') ->
+  (forall c, In c (calls s) -> In (Solve.c_out c) u) -> forall c, In c (calls s') -> In (Solve.c_out c) u'.
+Proof.
+  induction fuel as [|f IH]; intros stk s u s' u' H Hu; [discriminate|].
+  cbn [machine2] in H. destruct stk as [|t stk'].
+  - inversion H; subst. exact Hu.
+  - destruct (step pmc given t stk' s) as [stk2 s2] eqn:Es. eapply IH; eauto.
+    intros c Hc. destruct (step_calls _ _ _ _ _ Es) as [A|(c0 & A & B & C & D)].
+    + rewrite A in Hc. apply Hu in Hc. unfold marks. destruct (indexed s t); auto.
+      destruct (pmc t); auto. apply in_or_app; auto.
+    + rewrite A in Hc. apply in_app_or in Hc. unfold marks. rewrite C.
+      destruct (pmc t) eqn:E; [|congruence].
+      destruct Hc as [Hc|[<-|[]]]; apply in_or_app; [left; auto|right; rewrite B; left; reflexivity].
+Qed.
+End Used.
+
+(* verifyArgsUsed reports exactly the direct items whose source is not in the used list *)
+Lemma verify_args_used_spec id imports provs sprovs vals flds binds used d :
+  In d (verify_args_used (RSet id imports provs sprovs vals flds binds) used) <->
+  (exists s, In s imports /\ used_in used (SImport (rset_id s)) = false /\ d = DUnusedSet (rset_id s)) \/
+  (exists p, In p (all_provs provs sprovs) /\ used_in used (SProv (pv_id p)) = false /\ d = DUnusedProv (pv_id p)) \/
+  (exists v, In v vals /\ used_in used (SVal (vl_id v)) = false /\ d = DUnusedVal (vl_id v)) \/
+  (exists b, In b binds /\ used_in used (SBind (bd_id b)) = false /\ d = DUnusedBind (bd_id b)) \/
+  (exists f, In f flds /\ used_in used (SField (fd_id f)) = false /\ d = DUnusedField (fd_id f)).
+Proof.
+  cbn [verify_args_used]. rewrite !in_app_iff, !in_map_iff.
+  assert (F : forall {A} (P : A -> bool) (l : list A) x, In x (filter (fun y => negb (P y)) l) <-> In x l /\ P x = false).
+  { intros A P l x. rewrite filter_In. destruct (P x); cbn; intuition discriminate. }
+  split.
+  - intros [(s & <- & Hs)|[(p & <- & Hp)|[(v & <- & Hv)|[(b & <- & Hb)|(f & <- & Hf)]]]].
+    + apply F in Hs. left. exists s. tauto.
+    + apply F in Hp. right; left. exists p. tauto.
+    + apply F in Hv. right; right; left. exists v. tauto.
+    + apply F in Hb. right; right; right; left. exists b. tauto.
+    + apply F in Hf. right; right; right; right. exists f. tauto.
+  - intros [(s & A & B & ->)|[(p & A & B & ->)|[(v & A & B & ->)|[(b & A & B & ->)|(f & A & B & ->)]]]].
+    + left. exists s. split; auto. apply F. auto.
+    + right; left. exists p. split; auto. apply F. auto.
+    + right; right; left. exists v. split; auto. apply F. auto.
+    + right; right; right; left. exists b. split; auto. apply F. auto.
+    + right; right; right; right. exists f. split; auto. apply F. auto.
+Qed.
